@@ -36,10 +36,19 @@ def run(c):
         res = c.tie("tl1:" + sc.sid, lines, sc.impl, model, prefix=pre)
         # phase 2: what the implementation wrote must read back exactly and re-encode identically (the property itself)
         lines2 = {}
-        for l, a, _ in res:
+        for l, a, b in res:
             if not a.startswith("ok "):
                 continue
             f = l.split(" ")
+            # the input is a canonical encoding of some value v (the model's writer reproduces it exactly): then reading it and
+            # writing the result must reproduce it on the implementation too (write v → read → write)
+            if b.startswith("ok ") and f[0] == "codec.x1":
+                data = bytes.fromhex(f[5]) if f[5] != "-" else b""
+                key = "w1b" if f[4] == "1" else "w1"
+                mb, ma = cc.outputs(b).get(key), cc.outputs(a).get(key)
+                n = int(b.split(" ")[1])
+                if mb == hx(data[:n]) and ma not in (mb, "n/a", None):
+                    c.oracle_fail(l, "canonical TL1 encoding (%d bytes) is decoded and re-encoded differently by generated code: %s" % (n, str(ma)[:100]), l)
             for k, w in cc.outputs(a).items():
                 if w == "werr":
                     c.oracle_fail(l, "value decoded from TL1 bytes is refused by the TL1 writer", l)
